@@ -69,12 +69,14 @@ def run(C, R):
                 if tab[initial] is not False:
                     raise CheckerError('anchor=typestate-table: initial state %s of %s.%s is a linked state'
                                        % (initial, sp, q))
-                exp = {nd['state_field']: ('variant', initial)}
-                if nd.get('task_field'):
-                    exp[nd['task_field']] = 'none'
+                exp = {nd['state_field']: ('variant-in', tuple(v for v, linked in tab.items() if linked is False))}
                 constructor_state(R, E, F, data, exp, 'C01.I0')
                 n0 += 1
         R.floor('C01.I0 node-constructors[%s]' % cfg, n0, QUEUE_FLOOR)
+        from common import futures_start_initial
+        R.floor('C01.I0 future-construction-paths[%s]' % cfg,
+                futures_start_initial(C, R, cfg, sorted(roles.state_structs), 'C01.I0', any_unlinked=True),
+                6 if cfg == 'none' else 11)
         # ---------------- I1 + I3
         for sp in sorted(roles.state_structs):
             for m in entry_methods(F, CG, sp):
